@@ -88,64 +88,7 @@ func checkC15(r *Run) {
 		}
 	}
 	// R-C15-2
-	var draw *ssa.Call
-	eachInstr(newID, func(in ssa.Instruction) {
-		if k, ok := in.(*ssa.Call); ok {
-			if callee := k.Call.StaticCallee(); callee != nil && callee.Name() == "AddUint32" {
-				draw = k
-			}
-		}
-	})
-	if draw == nil {
-		r2.Lost("newID/draw", "no atomic draw in newID")
-	} else {
-		for _, ret := range returnsOf(newID) {
-			v := c.Resolve(ret.Results[0])
-			key := "newID/return"
-			if call, callee := c.asCall(v); call != nil && callee == newID {
-				r2.OK(key, ret.Pos(), "returns a fresh draw (recursive newID)")
-				continue
-			}
-			cv, ok := v.(*ssa.Convert)
-			if !ok || cv.X != ssa.Value(draw) {
-				// loop form: phi of converts
-				r2.Bad(key, ret.Pos(), "newID returns %s, which is not the truncated result of its own atomic draw", describeVal(v))
-				continue
-			}
-			if b, ok := cv.Type().Underlying().(*types.Basic); !ok || b.Kind() != types.Uint16 {
-				r2.Bad(key, ret.Pos(), "the id is not the 16-bit truncation of the draw")
-				continue
-			}
-			dom := false
-			for _, b := range newID.Blocks {
-				iff := blockIf(b)
-				if iff == nil {
-					continue
-				}
-				bin, ok := iff.Cond.(*ssa.BinOp)
-				if !ok || bin.X != ssa.Value(cv) {
-					continue
-				}
-				if k, ok := constInt(bin.Y); !ok || k != 0 {
-					continue
-				}
-				edge := 1
-				if bin.Op == token.NEQ {
-					edge = 0
-				} else if bin.Op != token.EQL {
-					continue
-				}
-				if DominatedByEdge(newID, ret, b, edge, PathQ{}) {
-					dom = true
-				}
-			}
-			if dom {
-				r2.OK(key, ret.Pos(), "returns the draw only on the `id != 0` edge")
-			} else {
-				r2.Bad(key, ret.Pos(), "newID can return 0 (no dominating zero test on the returned value)")
-			}
-		}
-	}
+	c.ruleNewIDNonZero(r2)
 	// R-C15-3
 	for _, s := range c.sitesOrLost(r3) {
 		if s.Kind != "subscribe" && s.Kind != "unsubscribe" {
@@ -597,6 +540,73 @@ func (c *Ctx) ruleErrorConstruction(rr *RuleRep) {
 			rr.OK("subscribeImpl/ErrInvalidSubAck", f.Pos(), "count mismatch wraps ErrInvalidSubAck")
 		} else {
 			rr.Bad("subscribeImpl/ErrInvalidSubAck", f.Pos(), "no error with cause ErrInvalidSubAck is produced by Subscribe")
+		}
+	}
+}
+
+// ruleNewIDNonZero (R-C15-2): every return of newID is its own truncated atomic draw on the `id != 0` edge, or a fresh draw.
+func (c *Ctx) ruleNewIDNonZero(r2 *RuleRep) {
+	newID := c.Method("BaseClient", "newID")
+	if newID == nil {
+		r2.Lost("newID", "not found")
+		return
+	}
+	var draw *ssa.Call
+	eachInstr(newID, func(in ssa.Instruction) {
+		if k, ok := in.(*ssa.Call); ok {
+			if callee := k.Call.StaticCallee(); callee != nil && callee.Name() == "AddUint32" {
+				draw = k
+			}
+		}
+	})
+	if draw == nil {
+		r2.Lost("newID/draw", "no atomic draw in newID")
+	} else {
+		for _, ret := range returnsOf(newID) {
+			v := c.Resolve(ret.Results[0])
+			key := "newID/return"
+			if call, callee := c.asCall(v); call != nil && callee == newID {
+				r2.OK(key, ret.Pos(), "returns a fresh draw (recursive newID)")
+				continue
+			}
+			cv, ok := v.(*ssa.Convert)
+			if !ok || cv.X != ssa.Value(draw) {
+				// loop form: phi of converts
+				r2.Bad(key, ret.Pos(), "newID returns %s, which is not the truncated result of its own atomic draw", describeVal(v))
+				continue
+			}
+			if b, ok := cv.Type().Underlying().(*types.Basic); !ok || b.Kind() != types.Uint16 {
+				r2.Bad(key, ret.Pos(), "the id is not the 16-bit truncation of the draw")
+				continue
+			}
+			dom := false
+			for _, b := range newID.Blocks {
+				iff := blockIf(b)
+				if iff == nil {
+					continue
+				}
+				bin, ok := iff.Cond.(*ssa.BinOp)
+				if !ok || bin.X != ssa.Value(cv) {
+					continue
+				}
+				if k, ok := constInt(bin.Y); !ok || k != 0 {
+					continue
+				}
+				edge := 1
+				if bin.Op == token.NEQ {
+					edge = 0
+				} else if bin.Op != token.EQL {
+					continue
+				}
+				if DominatedByEdge(newID, ret, b, edge, PathQ{}) {
+					dom = true
+				}
+			}
+			if dom {
+				r2.OK(key, ret.Pos(), "returns the draw only on the `id != 0` edge")
+			} else {
+				r2.Bad(key, ret.Pos(), "newID can return 0 (no dominating zero test on the returned value)")
+			}
 		}
 	}
 }
